@@ -7,7 +7,7 @@ TRUSTED = ["reads table of vf/pyvc/readsframe.py: which configuration keys deter
 
 def units(tier):
     # State.__init__ owns its list (pyvc): the input state held by a sampler cannot change behind the configuration snapshot
-    u = pyvc_units("C11", ["vf.contracts.c_state"])
+    u = pyvc_units("C11", ["vf.contracts.c_state", "vf.contracts.c_emulator"])
     for k in range(6):
         u.append(dict(kind="func", mechanism="bounded runtime contract (C)", name=f"bounded:sampler-histories[{k}/6]", module="vf.tasks.t_history", func="unit",
                       args=dict(kind="sampler", shard=k, nshards=6)))
